@@ -1125,7 +1125,7 @@ def main(tier, replay=None):
             if f["site"] not in seen:
                 seen.add(f["site"]); vf.log("  e.g.", f["site"], f["case"], "exp", f["expected"], "got", f["observed"])
     chk.cov["phase_seconds"]["compare"] = round(_t.time() - _t0, 1)
-    chk.cov["rule"] = ("every ring type (50) x moduli {min..min+2, max-2..max, prevprime(max), 2^k, 2^k+-1, sqrt(max)+-1, random} "
+    chk.cov["rule"] = ("every ring type (54) x moduli {min..min+2, max-2..max, prevprime(max), 2^k, 2^k+-1, sqrt(max)+-1, random} "
                        "(Log16: primes) x every call form x operands {0,1,lo,hi,p/2,p/2+-1,sqrt p,random} incl. the corner triples "
                        "(hi,hi,hi),(hi,hi,0),(lo,lo,hi) and directed pairs with a*b = +-s (mod p), s small, large quotient "
                        "(boundary of every quotient estimate / correction step; ModularExtended: 24+ such pairs at the maximum, at "
